@@ -347,6 +347,54 @@ fn main() {
             }
             0
         },
+        "expand-one" => {
+            // plain in-process expansion of one input file (no simulation): prints the outcome
+            std::panic::set_hook(Box::new(|_| {}));
+            let t = std::fs::read_to_string(a.get("_0", "")).unwrap_or_default();
+            print!("{}", host::expand_once(&t));
+            0
+        },
+        "compare-firsts" => {
+            // cross-build comparison: the same inputs expanded by two builds of educe (same features,
+            // different build profile) must give the same first outcomes
+            let (da, db) = (a.get("_0", ""), a.get("_1", ""));
+            let load = |d: &str| -> std::collections::BTreeMap<String, String> {
+                let mut m = std::collections::BTreeMap::new();
+                if let Ok(rd) = std::fs::read_dir(d) {
+                    for e in rd.flatten() {
+                        if let Ok(t) = std::fs::read_to_string(e.path()) {
+                            for l in t.lines() {
+                                if let Ok(j) = J::parse(l) {
+                                    if let (Some(i), Some(o)) = (j.get("in").and_then(|x| x.str()), j.get("out").and_then(|x| x.str())) {
+                                        m.entry(i.to_string()).or_insert(o.to_string());
+                                    }
+                                }
+                            }
+                        }
+                    }
+                }
+                m
+            };
+            let (ma, mb) = (load(&da), load(&db));
+            let mut diffs: Vec<&String> = ma.iter().filter(|(k, v)| mb.get(*k).map(|w| w != *v).unwrap_or(false)).map(|(k, _)| k).collect();
+            diffs.sort_by_key(|t| t.len());
+            println!("compared {} inputs present in both builds: {} differ", ma.keys().filter(|k| mb.contains_key(*k)).count(), diffs.len());
+            for (n, t) in diffs.iter().take(2).enumerate() {
+                let dir = PathBuf::from(a.get("replay-dir", "/verif/replays"));
+                let _ = std::fs::create_dir_all(&dir);
+                let path = dir.join(format!("C16-PROFILE-{}-{n}.json", verif_seed(&a)));
+                let j = J::obj()
+                    .set("property", J::s("C16"))
+                    .set("engine", J::s("PROFILE: the same input expanded by a release-profile and a dev-profile build of educe (same features)"))
+                    .set("signature", J::obj().set("kind", J::s("build_profile")))
+                    .set("input", J::s((*t).clone()))
+                    .set("outcome_hash_release", J::s(ma[*t].clone()))
+                    .set("outcome_hash_dev", J::s(mb[*t].clone()));
+                let _ = std::fs::write(&path, j.to_string_pretty());
+                println!("VIOLATION property=C16 replay={}", path.display());
+            }
+            if diffs.is_empty() { 0 } else { 1 }
+        },
         "plan" => {
             // print the (PRNG-free) scenario that run R of a batch with seed S executes
             let c = corpus::harvest(Path::new(&a.get("repo", "/repo")));
